@@ -9,7 +9,7 @@ from mcv.ref import riff
 
 P_QUICK = [0, 1, 2, 75, 76, 150]
 P_FULL = [0, 1, 2, 3, 74, 75, 76, 149, 150]
-RESIDUES = [0, 1, 2, 3, 4, 5, 2351, 2352, 2353, 4704]
+RESIDUES = [0, 1, 2, 3, 4, 5, 2351, 2352, 2353, 4095, 4096, 4097, 4098, 4704]
 
 
 def track_variants(k):
